@@ -824,6 +824,21 @@ func (g *Gen) callCommon(in *ssa.Call, cc *ssa.CallCommon, guard string) {
 	for i, rq := range ct.Requires {
 		g.ob("pre:"+key, invLabel(rq, i), g.transBool(rq.E, env), rq.E.String())
 	}
+	if callee != nil && callee == g.top && ct.Decreases != nil && g.depth == 0 {
+		// direct recursion: the termination measure is smaller at the recursive call than at entry, and
+		// bounded below -- the recursion depth (stack use) is then bounded by the measure's entry value
+		dCall := g.trans(ct.Decreases, env)
+		eenv := g.contractEnv()
+		eenv.oldEntry = true
+		dEntry := g.trans(ct.Decreases, eenv)
+		var p string
+		if g.bv {
+			p = fmt.Sprintf("(and %s %s)", g.lt(dCall.t, dEntry.t, true), g.le(g.zeroOf(dEntry), dEntry.t, true))
+		} else {
+			p = fmt.Sprintf("(and (< %s %s) (<= 0 %s))", dCall.t, dEntry.t, dEntry.t)
+		}
+		g.ob("rec-decreases", "", p, "recursive call: "+ct.Decreases.String()+" decreases and is bounded below")
+	}
 	old := copyMap(g.cur)
 	oldAll := map[string]string{}
 	for n := range g.comps {
@@ -849,12 +864,21 @@ func (g *Gen) callCommon(in *ssa.Call, cc *ssa.CallCommon, guard string) {
 	env.freshLo = fmt.Sprintf("%d000000000000", 1+g.ncallFresh)
 	env.freshHi = fmt.Sprintf("%d000000000000", 2+g.ncallFresh)
 	for _, e := range ct.Trusts {
+		if ct.Mode == "int" && g.bv {
+			break // see below: no mathematical-integer facts inside a bit-vector obligation
+		}
 		g.assume(guard, g.transBool(e.E, env))
 		g.assumptions["trusted (unchecked) postcondition of "+shortFn(ct.Key)+": "+e.E.String()] = true
 	}
 	for _, e := range ct.Ensures {
 		if g.fr.c != nil && e.Label != "" && g.fr.c.Ignores[lastName(key)+"#"+e.Label] {
 			continue // the enclosing function's contract asks not to assume this (weaker context, sound)
+		}
+		if ct.Mode == "int" && g.bv && ct.Trusted == "" {
+			// a contract proved over mathematical integers cannot be restated inside a bit-vector
+			// obligation (no bridges between the theories): its postconditions are not assumed here
+			g.note("postconditions of %s (arith int) are not assumed in this bit-vector function", key)
+			break
 		}
 		// A postcondition written for the other arithmetic mode (bit operations in a contract that an
 		// `arith int` caller uses) cannot be stated here: it is then NOT assumed (weaker context, sound)
@@ -863,7 +887,7 @@ func (g *Gen) callCommon(in *ssa.Call, cc *ssa.CallCommon, guard string) {
 			defer func() {
 				if r := recover(); r != nil {
 					te, isT := r.(transErr)
-					if !isT || !(strings.Contains(te.msg, "in int mode") || strings.Contains(te.msg, "width mismatch")) {
+					if !isT || !(strings.Contains(te.msg, "in int mode") || strings.Contains(te.msg, "in bv mode") || strings.Contains(te.msg, "width mismatch")) {
 						panic(r)
 					}
 					g.defs, g.decls = g.defs[:nd], g.decls[:nc]
